@@ -224,8 +224,13 @@ def builtin_getitem(c):
     c.replay("code", code=REPLAY_SCOPE)
 
 
+for _sfx in ("", "_async"):
+    for _b in ("none", "scalar", "array"):
+        include_node_contract("C14", _sfx, _b, lambda: REPLAY_SCOPE)
+
+
 not_covered("C14", "parsing of path syntax into segments (Path.parse)", "chain lengths above 5 for the ReadOnlyChainMap lookup loop (uniform in the length)",
-            "call-site obligations that AssignNode/CaptureNode call context.assign and that include uses extend (not copy) are structural, see 'binding-call-sites'")
+            "that AssignNode/CaptureNode call context.assign is a structural call-site obligation ('binding-call-sites'); that include renders in the caller's own context inside a block scope holding its arguments is proved on IncludeNode.render_to_output*")
 
 bounded("C14", "bounded/C14.py")
 
